@@ -110,6 +110,31 @@ CHECKS["C02"] = dict(
     technique="Lean 4 proof of the column-resolution layer + differential correspondence of complete column path sets on Lean-rendered SQL",
 )
 
+CHECKS["C18"] = dict(
+    category="proof",
+    text="Lean theorems about the model of io.to_cytoscape and LineageRunner.__str__ (Model/Export.lean) for EVERY graph view (any node "
+         "order, any payloads): the node entries are the printed names of the view's nodes with multiplicity and order (nodes_exact), "
+         "the edges are the view's edges with ids e0.. in order (edges_exact, edges_exact_mem, edge_ids_sequence, edge_ids_unique), "
+         "every edge endpoint is an exported node id under the invariant 'edge endpoints are nodes' (endpoints_are_nodes; the invariant "
+         "and duplicate-free node lists are proved preserved by every graph operation and by the assembler: wf_buildWith), every parent "
+         "reference is an exported parent id and there is one parent entry per distinct owner, named by the last column (parents_are_nodes, "
+         "parents_exact), node ids are unique IFF printing is injective on nodes and owners (ids_unique_iff_print_injective, ids_unique, "
+         "all_ids_unique_iff), the summary lists each role's tables sorted, as a permutation, once (summary_lists_roles_sorted_once, "
+         "summary_names_once); witnesses that the unchanged code emits duplicate ids (dev_D24_sql: complete model run on the AST of a "
+         "two-branch UNION whose derived tables share an alias; dev_D24, dev_D24_class, dev_D24_node_vs_parent, edge_id_clash_witness). "
+         "Tied to the code by harness/c18.py: every SQL of the repository's tests + TPC-DS and generated statements/scripts through the real "
+         "LineageRunner at both levels and through POST /lineage, a structural oracle on the implementation alone, exact comparison with the "
+         "model's export (entries, order, edge ids, summary text), and io.to_cytoscape on hand-made graphs in every node order",
+    design_ref="DESIGN.md §5 C18, §6 D24",
+    note=TB + ". Modelled, not verified: networkx subgraph views (their iteration order is taken from the implementation's output and the "
+         "theorems hold for every order). The walk's statement holders satisfy the graph invariants: checked per generated case at run "
+         "time, not proved for Model/Walk.lean. Statements with a subquery in a select item and CREATE TABLE column lists under dialects "
+         "with a different tree shape are compared on the summary only (oracle still applies). Known finding D24 (duplicate node ids when "
+         "two distinct nodes/owners print alike).",
+    technique="Lean 4 proof over a hand-written model + differential correspondence (model driver vs real LineageRunner / WSGI app / "
+              "io.to_cytoscape) with a model-independent structural oracle",
+)
+
 NOT_YET = "machinery not built yet (build phase in progress, see DESIGN.md §9)"
 
 
